@@ -115,7 +115,8 @@ class C06Gen(goldgen.Gen):
     """Gen with (a) a renderer that separates a prefix minus from an operand that itself starts with a minus
     (`- -x`; goldgen renders `--x`, which is the decrement token and not the program it means), and (b) the
     constructs goldgen does not emit but the C06 proofs cover: untyped parameters, `uses` / `type` inside bodies,
-    `var .. absolute ..`, annotations in front of fields"""
+    `var .. absolute ..`, composed types, annotations in front of fields, type declarations, class / module headers (no
+    node) and in front of methods, constants, uses lists, at the end of the file (an AstEmpty node)"""
     EXTRA_FORMS = 3          # uses / type / var-absolute inside a body
 
     def render_expr(self, e, min_level=0, noparen=False):
@@ -172,15 +173,87 @@ class C06Gen(goldgen.Gen):
             kids.append(("AstParameterDeclaration", nm, [te]))
         return "(" + ", ".join(ps) + ")", [("AstParameterDeclarationList", "param_decls", kids)]
 
+    ANNOTATIONS = ["[Key]", "[Index, 2]", "[ Doc 'x y' ]", "[]", "[a.b = c]"]
+
+    def annotate(self, lines):
+        """an annotation in front of the declaration that starts at lines[0]: on its own line or on the same line"""
+        ann = self.r.choice(self.ANNOTATIONS)
+        if self.r.random() < 0.5:
+            return [ann] + lines
+        return [ann + " " + lines[0]] + lines[1:]
+
+    def gen_type(self, depth=0):
+        """as goldgen's, plus composed types  T + (a, b) + U  (operands: basic types and enums, left associative)"""
+        r = self.r
+        if r.random() < 0.08:
+            parts = []
+            for _ in range(r.randint(2, 3)):
+                if r.random() < 0.5:
+                    b = r.choice(goldgen.TYPES)
+                    parts.append((b, ("AstTypeBasic", b, [])))
+                else:
+                    names = ["cA", "cB", "cC"][: r.randint(1, 3)]
+                    parts.append(("(" + ", ".join(names) + ")",
+                                  ("AstTypeEnum", "type_enum", [("AstEnumVariant", n, []) for n in names])))
+            e = parts[0][1]
+            for _, pe in parts[1:]:
+                e = ("AstBinaryOp", "+", [e, pe])
+            return " + ".join(t for t, _ in parts), e
+        return super().gen_type(depth)
+
     def gen_decl(self):
+        """as goldgen's, plus an annotation in front of a field or a type declaration (it leaves no node)"""
         lines, e = super().gen_decl()
-        if e[0] == "AstGlobalVariableDeclaration" and self.r.random() < 0.2:
-            ann = self.r.choice(["[Key]", "[Index, 2]", "[ Doc 'x y' ]", "[]"])
-            if self.r.random() < 0.5:
-                lines = [ann] + lines
-            else:
-                lines = [ann + " " + lines[0]] + lines[1:]
+        if e[0] in ("AstGlobalVariableDeclaration", "AstTypeDeclaration") and self.r.random() < 0.2:
+            lines = self.annotate(lines)
         return lines, e
+
+    EMPTY = ("AstEmpty", "empty_node", [])
+
+    def gen_program(self, n_decls=None, header=None):
+        """as goldgen's, plus annotations: in front of the class / module header (no node), and in front of methods,
+        constants, uses lists and at the end of the file, where the code ignores them and leaves an AstEmpty node"""
+        r = self.r
+        lines, kids, methods = [], [], []
+        header = header if header is not None else r.choice(["class", "class", "classp", "module", "none"])
+        cname = "a" + r.choice(["Thing", "Widget", "Acct"]) + str(r.randint(0, 99))
+        if header == "class":
+            lines.append(self.kw("class") + " " + cname)
+            kids.append(("AstClass", cname, []))
+        elif header == "classp":
+            lines.append(self.kw("class") + " " + cname + " (aBase)")
+            kids.append(("AstClass", cname, []))
+        elif header == "module":
+            lines.append(self.kw("module") + " " + cname)
+            kids.append(("AstModule", cname, []))
+        if lines and r.random() < 0.15:
+            lines = self.annotate(lines)
+        for _ in range(n_decls if n_decls is not None else r.randint(0, 8)):
+            info = None
+            if r.random() < 0.45:
+                ls, e, info = self.gen_method(force_body=False)
+            else:
+                ls, e = self.gen_decl()
+            if e[0] in ("AstProcedure", "AstFunction", "AstConstantDeclaration", "AstUses") and r.random() < 0.12:
+                n0 = len(ls)
+                ls = self.annotate(ls)
+                kids.append(self.EMPTY)
+                if info is not None and len(ls) > n0:
+                    lines.append(ls[0])
+                    ls = ls[1:]
+            if info is not None:
+                info["first_line"] = len(lines)
+                info["n_lines"] = len(ls)
+                methods.append(info)
+            lines += ls
+            kids.append(e)
+            if r.random() < 0.3:
+                lines.append("")
+        if r.random() < 0.03:
+            lines.append(r.choice(self.ANNOTATIONS))
+            kids.append(self.EMPTY)
+        nl = "\r\n" if r.random() < 0.2 else "\n"
+        return nl.join(lines) + nl, kids, methods
 
 
 class NestGen(C06Gen):
